@@ -117,6 +117,9 @@ def run(res):
         for v in viol[:3]:
             res.violation({"property": "C13", "kind": "property-oracle-on-implementation", "failing": v,
                            "replay": "pharness: pdf <hex path> ; or the e2e scenario given"})
+    elif e2e and e2e.get("n_model_disagreements"):
+        res.violation({"property": "C13", "kind": "correspondence", "broken": "Build/Model.v vs the implementation on 'defaults' histories (selection, $1 $2 $3)",
+                       "theorems_no_longer_tied": ["C13_order"], "first_disagreements": e2e["model_disagreements"]}, found_input=False)
     elif d:
         res.violation({"property": "C13", "kind": "correspondence", "broken": "model DoFiles/Candidates.v vs redo::possible_do_files",
                        "theorems_no_longer_tied": ["C13_order"], "first_disagreements": d}, found_input=False)
